@@ -22,6 +22,8 @@ import YaegiVerif.Model.Share
     assert2-define-in-loop / assert2-fails   `v, ok := x.(T)` in a loop body / a failing assertion   F04-14, repaired by daee744
     complit-assign-var / complit   `p = P{p.Y, p.X}`: a literal with expression operands (that may read the destination);
                              never diverged on the repository's own history — the shape of seeded change C04-3
+    call-named-result-assign  `g = f(&g)` with a named result                                      F04-20, repaired by 1b5ab85
+    return-permutes-results   `return b, a` with named results a, b                                F04-19, repaired by 8544122
     range-ptr-array          `for i, v := range p` with p a pointer to an array (shape: source is not decidable
                              without types; the harness labels it)                            F04-7, repaired by da35a0b
 -/
@@ -67,6 +69,8 @@ def sopShape (inBody : Bool) : SOp → Option String
   | .lookup2 isDef _ _ _ _ _ _ _ => if isDef && inBody then some "lookup2-define-in-loop" else none
   | .mapSet _ _ r => if isDerefLoad r then some "nil-deref-map-store" else none
   | .complit isDef l _ _ _ => if !isDef && isVarL l then some "complit-assign-var" else some "complit"
+  | .callNamed isDef _ _ _ _ _ _ _ => if isDef then none else some "call-named-result-assign"
+  | .retSwap _ _ _ _ _ => some "return-permutes-results"
   | .recv isDef l _ => if isDef then none else if isVarL l then some "recv-assign-var" else some "recv-assign-elem"
   | .assert2 isDef _ _ _ succ _ _ _ =>
     if isDef && inBody then some "assert2-define-in-loop" else if !succ then some "assert2-fails" else none
